@@ -1182,3 +1182,17 @@ Proof.
   { unfold model_step, spec_step. apply map_ext. intro k. apply (next_agree prog d res H). }
   rewrite Hs, IH. reflexivity.
 Qed.
+
+(* explicit hold: when the unique active branch assigns the register to itself (its rhs wire carries the
+   register's current value), the register keeps its value -- whatever default is declared for it *)
+Theorem explicit_hold : forall prog d res, elab prog d = Some res ->
+  forall i, In (LW (TReg i)) (map fst (slits prog)) ->
+  exists e, res_get res (LW (TReg i)) = Some (FVal e) /\
+    forall E r, active_for (e_pred E) prog (LW (TReg i)) = [PVal r] ->
+                e_leaf E r = e_reg E i -> veval E e = e_reg E i.
+Proof.
+  intros prog d res H i Hin.
+  destruct (value_wire prog d res H (TReg i) Hin) as (e & Hget & Hv).
+  exists e. split; [exact Hget|]. intros E r Hact Hr. specialize (Hv E).
+  unfold spec_value in Hv. rewrite Hact in Hv. injection Hv as Hv. congruence.
+Qed.
